@@ -120,9 +120,11 @@ pub fn check(case: &Case, rec: &mut Rec) -> Option<Failure> {
             "RateOfChange" if out[0] != 0.0 => bad("neutral", format!("RateOfChange = {:e}, expected 0 exactly", out[0])),
             "TrueRange" if out[0] != 0.0 => bad("neutral", format!("TrueRange = {:e}, expected 0 exactly", out[0])),
             "MeanAbsoluteDeviation" if !(out[0].abs() <= tol) => bad("neutral", format!("MAD = {:e} > τ(t)·M = {:e}", out[0], tol)),
-            "StandardDeviation" if !(out[0].abs() <= tau(t).sqrt() * big) => bad("neutral", format!("SD = {:e} > sqrt(τ(t))·M = {:e}", out[0], tau(t).sqrt() * big)),
+            // below |x| ≈ 1.5e-154 the SQUARES the Welford update works with are subnormal (x² < 2.2e-308) and keep only a few
+            // bits: own symptom, so that the known finding about that range does not mask a failure at ordinary levels
+            "StandardDeviation" if !(out[0].abs() <= tau(t).sqrt() * big) => bad(if big < 1.5e-154 { "neutral-square-underflow" } else { "neutral" }, format!("SD = {:e} > sqrt(τ(t))·M = {:e}", out[0], tau(t).sqrt() * big)),
             "BollingerBands" if !((out[1] - out[0]).abs() <= tau(t).sqrt() * big * case.ms[0].abs().max(1.0) && (out[0] - out[2]).abs() <= tau(t).sqrt() * big * case.ms[0].abs().max(1.0)) => {
-                bad("neutral", format!("bands {:e}/{:e} not collapsed onto average {:e} within sqrt(τ)·M", out[1], out[2], out[0]))
+                bad(if big < 1.5e-154 { "neutral-square-underflow" } else { "neutral" }, format!("bands {:e}/{:e} not collapsed onto average {:e} within sqrt(τ)·M", out[1], out[2], out[0]))
             }
             _ => None,
         };
@@ -139,6 +141,26 @@ pub fn flat_op(name: &str, level: f64, vol: f64) -> Op {
     } else {
         Op::Bar(B { o: level, h: level, l: level, c: level, v: vol })
     }
+}
+
+/// the same experiment at NEGATIVE prices: every price field negated (high and low swapped so that
+/// low <= close <= high still holds), volumes unchanged
+pub fn mirrored(c: &Case) -> Case {
+    let mut m = c.clone();
+    m.kind = format!("{}-negative", c.kind);
+    for op in m.ops.iter_mut() {
+        match op {
+            Op::Next(x) => *x = -*x,
+            Op::Bar(b) => *b = B { o: -b.o, h: -b.l, l: -b.h, c: -b.c, v: b.v },
+            _ => {}
+        }
+    }
+    m
+}
+/// indicators defined for negative prices (spreads, rates, the 2020 WTI future): all but MoneyFlowIndex, whose
+/// money flow price × volume — and the sign-coded ring it is stored in — presupposes positive prices
+pub fn accepts_negative(name: &str) -> bool {
+    name != "MoneyFlowIndex"
 }
 
 pub fn generate(r: &mut Runner) {
@@ -171,6 +193,10 @@ pub fn generate(r: &mut Runner) {
                 let vol = [5.0, 0.0, 1.0, 1e3, 0.0, 7.0][variant];
                 for _ in 0..slen {
                     c.ops.push(flat_op(name, level, vol));
+                }
+                // the same prefix and stretch at the negative level −level (short stretches only)
+                if accepts_negative(name) && variant != 3 {
+                    r.run(mirrored(&c), plen > 0);
                 }
                 r.run(c, plen > 0);
             }
@@ -224,6 +250,9 @@ pub fn generate(r: &mut Runner) {
                     for _ in 0..(3 * p + 5) {
                         c.ops.push(flat_op(name, level, 2.0));
                     }
+                    if accepts_negative(name) {
+                        r.run(mirrored(&c), with_prefix);
+                    }
                     r.run(c, with_prefix);
                 }
             }
@@ -251,8 +280,44 @@ pub fn generate(r: &mut Runner) {
         for _ in 0..slen {
             c.ops.push(flat_op(name, level, 3.0));
         }
+        if accepts_negative(name) && r.rng.chance(0.3) {
+            c = mirrored(&c);
+        }
         r.run(c, plen > maxp);
+    }
+    // long active prefixes (state that only shows after many updates — counters, periodic re-syncs of running sums —
+    // must not leak into the degenerate window): prefix length uniform in [n+1, maxpre] or N + n + j for a round count N
+    // and j in 0..=3, so that a re-sync tied to a round number of updates / slides falls at the end of the prefix
+    let maxpre = if r.tier == Tier::Quick { 5000 } else { 40000 };
+    let rounds: Vec<usize> = [256usize, 512, 1000, 1024, 2000, 2048, 4096, 5000, 8192, 10000, 16384, 20000, 32768].iter().copied().filter(|n| *n <= maxpre).collect();
+    let reps = if r.tier == Tier::Quick { 6 } else { 60 };
+    for rep in 0..reps {
+        for name in ind::NAMES {
+            let (np, nm) = ind::arity(name).unwrap();
+            let p = *r.rng.pick(&[1usize, 2, 3, 5, 8, 14, 20, 50, 128]);
+            let ps: Vec<usize> = (0..np).map(|j| if j == 0 { p } else { 1 + (p + j) % 5 }).collect();
+            let ms: Vec<f64> = (0..nm).map(|_| 2.0).collect();
+            let plen = if rep % 2 == 0 { r.rng.range(p + 1, maxpre) } else { *r.rng.pick(&rounds) + p + r.rng.below(4) };
+            let scale = *r.rng.pick(&[1.0, 100.0, 1e6]);
+            let regime = *r.rng.pick(gen::REGIMES);
+            let pre = gen::stream(&mut r.rng, regime, plen, true, scale);
+            let mut c = Case::new("C08", "flat-after-long-prefix", name, &ps, &ms);
+            if ind::has_next_name(name) && r.rng.chance(0.5) {
+                c.ops = pre.into_iter().map(Op::Next).collect();
+            } else {
+                c.ops = gen::valid_bars(&mut r.rng, &pre).into_iter().map(Op::Bar).collect();
+            }
+            c.ops.push(Op::Mark);
+            let level = scale * (0.5 + r.rng.unit());
+            for _ in 0..(p + 2 + r.rng.below(20)) {
+                c.ops.push(flat_op(name, level, 3.0));
+            }
+            if accepts_negative(name) && r.rng.chance(0.25) {
+                c = mirrored(&c);
+            }
+            r.run(c, true);
+        }
     }
 }
 
-pub const RULE: &str = "for all 22 indicators and periods 1..=8: six prefix variants (none, 1 input, n+1, 3n+7 inputs; walk/alt/spike regimes incl. ×10^6 spikes, scalars or valid bars) followed by a flat stretch of 3n+5 inputs (one variant: 1200 quick / 6000 thorough inputs, long enough for exponential averages to underflow) at levels {1, 0.1, 100, 12345.678, 1e6, 3.3e-3}, volumes incl. 0; plus zero-volume stretches with moving prices for MFI/OBV after prefixes with ×10^6 volumes; plus flat stretches at the extreme levels {1e-310, 3e-308, 1e-300, 1e-160, 1e150} for periods 1, 2, 5, 14 with and without a prefix at the same scale; plus sampled periods to 128 after histories to 400 inputs. Every step of the stretch: outputs finite and inside the documented range; once the reference window is degenerate (n, or n+1 for ROC/ER/MFI, equal inputs): FastStochastic 50, CCI 0, ROC 0, TrueRange 0 exactly, MAD <= tau(t)·M, SD <= sqrt(tau(t))·M, Bollinger bands within sqrt(tau(t))·M of the average. Non-trivial = non-empty active prefix.";
+pub const RULE: &str = "for all 22 indicators and periods 1..=8: six prefix variants (none, 1 input, n+1, 3n+7 inputs; walk/alt/spike regimes incl. x10^6 spikes, scalars or valid bars) followed by a flat stretch of 3n+5 inputs (one variant: 1200 quick / 6000 thorough inputs, long enough for exponential averages to underflow) at levels {1, 0.1, 100, 12345.678, 1e6, 3.3e-3}, volumes incl. 0; plus zero-volume stretches with moving prices for MFI/OBV after prefixes with x10^6 volumes; plus flat stretches at the extreme levels {1e-310, 3e-308, 1e-300, 1e-160, 1e150} for periods 1, 2, 5, 14 with and without a prefix at the same scale; plus sampled periods to 128 after histories to 400 inputs. NEGATIVE flat levels: every short-stretch case of the first stage and every extreme-level case is run a second time mirrored (all prices negated, high/low swapped, volumes kept: levels -1, -0.1, -100, -1e6, -3.3e-3, -1e-310 .. -1e150, prefixes negative too), and 30% of the sampled cases are mirrored, for all indicators except MoneyFlowIndex (money flow presupposes positive prices). Long prefixes (6 quick / 60 thorough rounds over all 22 indicators, a quarter mirrored): period from {1,2,3,5,8,14,20,50,128}, an active prefix in one of 9 regimes at scale {1,100,1e6} of length uniform in [n+1, 5000] (thorough 40000) or N+n+j with N a round count from {256,512,1000,1024,2000,2048,4096,5000 (thorough also 8192..32768)} and j in 0..=3, then a flat stretch of n+2..n+21 inputs. Every step of the stretch: outputs finite and inside the documented range; once the reference window is degenerate (n, or n+1 for ROC/ER/MFI, equal inputs): FastStochastic 50, CCI 0, ROC 0, TrueRange 0 exactly, MAD <= tau(t)*M, SD <= sqrt(tau(t))*M, Bollinger bands within sqrt(tau(t))*M of the average. Non-trivial = non-empty active prefix.";
